@@ -36,7 +36,7 @@ func TestVfC15Listeners(t *testing.T) {
 	var ps [2]*Proxy
 	for i, global := range []int{0, 1000000} {
 		pips[i] = block + itoa(10+i)
-		cfg := &Config{Servers: StdServers(pips[i], []string{"udp", "tcp", "gnet", "tls", "http", "quic"}, "X-Client"), Upstreams: []UpstreamCfg{{Tag: "up", Addr: up.Addr()}}, Rules: []Rule{{Forward: "up"}},
+		cfg := &Config{Servers: StdServers(pips[i], []string{"udp", "tcp", "gnet", "tls", "http", "quic"}, "X-Real-IP"), Upstreams: []UpstreamCfg{{Tag: "up", Addr: up.Addr()}}, Rules: []Rule{{Forward: "up"}},
 			Limiter: &LimiterCfg{GlobalLimit: global, Client: &ClientLimiterCfg{Limit: limit, Burst: burst}}}
 		for j := range cfg.Servers {
 			switch cfg.Servers[j].Protocol {
@@ -248,7 +248,7 @@ func TestVfC15Listeners(t *testing.T) {
 				if kind == "http-v6" {
 					addr = fmt.Sprintf("2001:db8:%x:%x::%x", n%65000, i%7, i+1) // one /48, several /64s
 				}
-				a.Header = map[string]string{"X-Client": addr}
+				a.Header = map[string]string{"X-Real-IP": addr}
 				res := a.Ask("http", Query(uint16(1000+i), mkName("flood", i), 1, 1, false), 2*time.Second, 0)
 				if i%20 == 19 {
 					// a second client behind the same HTTP peer, identified by the header, in another subnet and
@@ -257,7 +257,7 @@ func TestVfC15Listeners(t *testing.T) {
 					if kind == "http-v6" {
 						other = fmt.Sprintf("2001:db9:%x::%x", n%65000, i+1)
 					}
-					a.Header = map[string]string{"X-Client": other}
+					a.Header = map[string]string{"X-Real-IP": other}
 					r2 := a.Ask("http", Query(uint16(3000+i), mkName("quiet", i), 1, 1, false), 2*time.Second, 0)
 					if r2.Status == 503 {
 						slowRefused.Add(1)
